@@ -71,7 +71,7 @@ def main():
         m = re.search(r"(\d+) tests run: (\d+) passed", o_suite)
         suite = {"exit": rc_suite, "tests_run": int(m.group(1)) if m else None, "passed": int(m.group(2)) if m else None}
         reset()
-        ok = rc_without == 0 and rc_with != 0 and rc_suite == 0 and suite["passed"] == 362
+        ok = rc_without == 0 and rc_with != 0 and rc_suite == 0 and suite["passed"] is not None and suite["passed"] >= 362 and suite["passed"] == suite["tests_run"]  # a patch may add unit tests of its own
         os.makedirs(out_dir, exist_ok=True)
         shutil.copy(f"{src}/patch.diff", f"{out_dir}/patch.diff")
         shutil.copy(f"{src}/NOTES.md", f"{out_dir}/NOTES.md")
